@@ -1,6 +1,6 @@
 """C03 configuration for ./check (see checks/propcfg.py for the keys)."""
 CFG = {
-    "modules": ["VaxisModel.Props.C03", "VaxisModel.Props.C03Query", "VaxisModel.Props.C03Body", "VaxisModel.Witness.F09", "VaxisModel.Witness.F10", "VaxisModel.Witness.F12", "VaxisModel.Witness.F103", "VaxisModel.Witness.F303"],
+    "modules": ["VaxisModel.Props.C03", "VaxisModel.Props.C03Query", "VaxisModel.Props.C03Body", "VaxisModel.Props.C03Live", "VaxisModel.Witness.F09", "VaxisModel.Witness.F10", "VaxisModel.Witness.F12", "VaxisModel.Witness.F103", "VaxisModel.Witness.F303"],
     "extractors": ["C03"],
     "drivers": ["C03"],
     "stateful": True,
